@@ -142,3 +142,23 @@ func specGenuineER6(s *icmpDriver, p *packets.FrameParser, t uint8) bool {
 //@ ensures[C10.entry.atom]  ret1 != nil ==> ret0 == nil
 //@ ensures[C03.entry.hops]  ret1 == nil ==> ret0 != nil && forall(i, 0, len(ret0.Hops), ret0.Hops[i] != nil)
 //@ modifies *
+
+//@ func (*icmpDriver).storeProbe
+//@ inline
+//@ safety C06
+//@ requires[pre.nonnil]   s != nil && s.sentProbes != nil
+
+//@ func (*icmpDriver).SendProbe
+//@ safety C06 C05
+//@ requires[pre.nonnil]   s != nil && s.sink != nil && s.sentProbes != nil
+//@ requires[pre.past]     forall(k, 0, 256, s.sentProbes[k] <= now())
+//@ ensures[C06.once]      ret0 == nil ==> !old(specSent(s, ttl)) && !old(has(s.sentProbes, ttl)) && specSent(s, ttl) && specInRange(s, ttl)
+//@ ensures[C06.others]    forall(k, 0, 256, k != int(ttl) ==> s.sentProbes[k] == old(s.sentProbes[k]) && has(s.sentProbes, k) == old(has(s.sentProbes, k)))
+//@ ensures[C05.stamp]     ret0 == nil ==> wrN == old(wrN)+1 && s.sentProbes[ttl] <= wrClock && s.sentProbes[ttl] >= old(now())
+//@ ensures[C05.past]      forall(k, 0, 256, s.sentProbes[k] <= now())
+//@ ensures[C06.wire.ttl]  ret0 == nil ==> ghost(ser.ttl) == int(ttl) && ghost(ser.version) == ite(s.isIPV6, 6, 4)
+//@ ensures[C06.wire.id4]  ret0 == nil && !s.isIPV6 ==> ghost(ser.icmpseq) == int(ttl) && ghost(ser.icmpid) == int(s.echoID) && ghost(ser.icmptc) == 8*256 && ghost(ser.proto) == 1
+//@ ensures[C06.wire.opts] ret0 == nil ==> ghost(ser.fix) && ghost(ser.csum) && ghost(ser.pseudo)
+//@ ensures[C06.wire.flow] ret0 == nil && !s.isIPV6 && s.localAddr.Is4() && s.params.Target.Is4() ==> sameip(ghostaddr(ser.src), s.localAddr.Unmap()) && sameip(ghostaddr(ser.dst), s.params.Target.Unmap())
+//@ ensures[C10.send.wrap] ret0 != nil ==> noRepoErr(ret0)
+//@ modifies s.mu, map(s.sentProbes), ghost clock, ghost wrN, ghost wrClock
